@@ -14,6 +14,7 @@ structure XWorld where
   tape : Impl.Tape
   exts : List (Bytes × Ext)                  -- keyed by the object's own SPI
   confs : List (Bytes × Bytes × Conf)        -- (my address, peer address) → connection
+  sad : List (Bytes × Nat × Bytes) := []     -- the kernel's SAD as the handlers' requests have left it
   deriving Repr
 
 def emptyConf : Conf :=
@@ -37,8 +38,8 @@ def runOn (w : XWorld) (s : Sa) (h : HM HRes) : XWorld × HOut :=
   let (succ, b2) : Option XSa × Bool := match s.succ with
     | some n => let (x, b) := w.obj n; (some x, b)
     | none => (none, false)
-  let o := runH h me succ { w.tape with bad := w.tape.bad || b1 || b2 }
-  let w := { w with tape := o.tape }
+  let o := runH h me succ { w.tape with bad := w.tape.bad || b1 || b2 } w.sad
+  let w := { w with tape := o.tape, sad := o.sad }
   let w := w.put o.me.core.mySpi o.me.ext
   let w := match o.succ with | some n => w.put n.core.mySpi n.ext | none => w
   (w, { sa := { core := o.me.core, succ := o.succ.map (·.core) }, res := o.res, nl := o.nl })
